@@ -379,7 +379,7 @@ func TestC09Kill(t *testing.T) {
 
 // TestC09Faults: a save that fails because a system call fails leaves the published snapshot in place.
 func TestC09Faults(t *testing.T) {
-	col := ev.Get("C09", "faults", "the saving child runs under strace -e inject=<openat|write|renameat|close|fsync>:error=<ENOSPC|EIO|EACCES|EDQUOT>:when=n for generated n; after every failed save the child loads the store and reports what it holds; oracle: it holds exactly the last successfully saved snapshot (index + hash) - a failed save publishes nothing and destroys nothing - and the parent finds the same after the child ended; non-trivial = at least one save failed through the injected fault; distinct by (syscall,error,n,size)")
+	col := ev.Get("C09", "faults", "the saving child runs under strace -e inject=<openat|write|renameat|close|fsync>:error=<ENOSPC|EIO|EACCES|EDQUOT>:when=n for generated n; after every failed save the child loads the store and reports what it holds, then saves the same snapshot once more (the retry of an unchanged state); oracle: it holds exactly the last successfully saved snapshot (index + hash) - a failed save publishes nothing and destroys nothing - and the parent finds the same after the child ended; non-trivial = at least one save failed through the injected fault; distinct by (syscall,error,n,size)")
 	helper := helperPath(t)
 	strace, err := exec.LookPath("strace")
 	if err != nil {
